@@ -36,7 +36,7 @@ def digest(v) -> str:
     return hashlib.sha1(repr(values.canon(v)).encode("utf-8", "backslashreplace")).hexdigest()
 
 
-NOISE = ["print", "stdout_write", "dunder_stdout", "os_write1", "os_write2", "os_system", "stderr_write"]
+NOISE = ["print", "stdout_write", "dunder_stdout", "os_write1", "os_write2", "os_system", "stderr_write", "os_read0", "stdin_read", "child_reads_stdin"]
 
 
 def gen_program(rng, gen, allow_raise=True, big=False):
@@ -105,6 +105,16 @@ def render_lines(prog, indent=""):
             elif how == "os_write2":
                 L.append("import os")
                 L.append(f"os.write(2, b'')")
+            elif how == "os_read0":
+                # reading standard input (it is the null device for remote code): never bytes of the protocol
+                L.append("import os")
+                L.append("os.read(0, 65536)")
+            elif how == "stdin_read":
+                L.append("import sys")
+                L.append("sys.stdin.read(100) if sys.stdin is not None else None")
+            elif how == "child_reads_stdin":
+                L.append("import os")
+                L.append("os.system('head -c 4096 > /dev/null')")
             elif how == "os_system":
                 L.append("import os")
                 L.append(f"os.system('echo {'s' * min(nb, 1000)}')")
